@@ -486,10 +486,10 @@ def leg_a_table(ctx):
 
 def leg_a_cases(ctx):
     rng = ctx.rng
-    r = ctx.tlc('MC_MediaTypes', 'MC_MediaTypesS.cfg', simulate={'num': ctx.pick(400, 12000)}, depth=6, seed=ctx.seed + 11,
+    r = ctx.tlc('MC_MediaTypes', 'MC_MediaTypesS.cfg', simulate={'num': ctx.pick(400, 5000)}, depth=6, seed=ctx.seed + 11,
                 workers=4, timeout=900, count=False)
     cases = {digest([j['hdr'], j['cands']]): j for j in r.json if 'cands' in j}
-    for k, (key, c) in enumerate(cases.items()):
+    for k, (key, c) in enumerate(list(cases.items())[:ctx.pick(6000, 60000)]):
         hdr, cands = c['hdr'], c['cands']
         header = render_header(hdr, rng)
         cstrs = [render_type(m, rng) for m in cands]
@@ -501,8 +501,8 @@ def leg_a_cases(ctx):
         compare_outcome(ctx, 'best', c['best'], call_best(cstrs, header), case, bad)
         req = make_request(header, 'wsgi' if k % 2 else 'asgi')
         compare_outcome(ctx, 'prefers', c['pref'], call_prefers(req, cstrs), case, bad)
-    ctx.traces_validated += len(cases)
-    ctx.extra['simulated_negotiation_cases'] = len(cases)
+    ctx.traces_validated += min(len(cases), ctx.pick(6000, 60000))
+    ctx.extra['simulated_negotiation_cases'] = min(len(cases), ctx.pick(6000, 60000))
     ctx.progress('leg A cases done: %d' % len(cases))
 
 
@@ -538,20 +538,22 @@ def norm_map(m):
 
 
 def leg_a_handlers(ctx):
-    r = ctx.tlc('MC_Handlers', 'MC_HandlersSim.cfg', simulate={'num': ctx.pick(25, 500)}, depth=9, seed=ctx.seed + 12,
+    r = ctx.tlc('MC_Handlers', 'MC_HandlersSim.cfg', simulate={'num': ctx.pick(80, 800)}, depth=11, seed=ctx.seed + 12,
                 workers=4, timeout=900, count=False)
     behs = {digest(j): j for j in r.json if 'ev' in j}
     n = 0
-    for bi, (key, b) in enumerate(list(behs.items())[:ctx.pick(5000, 100000)]):
+    for bi, (key, b) in enumerate(list(behs.items())[:ctx.pick(5000, 40000)]):
         evs = b['ev']
         run = HRun(evs[0]['maps'][0])
         mutated = False
         nontrivial = False
-        case = {'leg': 'A-handlers', 'behaviour': evs}
+        routes = []
+        case = {'leg': 'A-handlers', 'behaviour': evs, 'routes': routes}
         for si, st in enumerate(evs[1:]):
             call = st['call']
             c = spec_call(call)
             route = ROUTES[(bi + si) % len(ROUTES)] if (bi + si) % 3 == 0 else ROUTES[(bi + si) % 4]
+            routes.append(route)
             ev = run.apply(c, route)
             if c['op'] == 'resolve':
                 nontrivial = nontrivial or mutated
@@ -598,7 +600,7 @@ def rand_type(rng):
 
 def leg_b_negotiation(ctx):
     rng = ctx.rng
-    ntraces = ctx.pick(300, 12000)
+    ntraces = ctx.pick(300, 6000)
     traces = []
     for ti in range(ntraces):
         evs = []
@@ -673,7 +675,7 @@ def leg_b_handlers(ctx):
                       {'t': 'b', 's': 'y', 'pm': [R1]}, {'t': 'c', 's': 'x', 'pm': []}, {'t': 'e', 's': 'z', 'pm': []},
                       {'t': '*', 's': '*', 'pm': []}, NOTYPE, NOTYPE]
     defaults = [keys[0], keys[3], {'t': 'a', 's': 'y', 'pm': []}]
-    ntraces = ctx.pick(250, 12000)
+    ntraces = ctx.pick(250, 6000)
     traces, seen = [], set()
     for ti in range(ntraces):
         hid = itertools.count(1)
@@ -686,13 +688,16 @@ def leg_b_handlers(ctx):
         run = HRun(init)
         evs = []
         nkeys = keys[:rng.choice((3, 4, 5, 8))]
+        # few distinct (content type, default) pairs per history, so that resolutions repeat across mutations
+        tcts = rng.sample(cts, rng.choice((1, 2, 2, 3, 5)))
+        tdefs = rng.sample(defaults, rng.choice((1, 1, 2)))
         mutated = nontrivial = False
         for _ in range(rng.randint(4, 30)):
             o = rng.randint(1, len(run.objs))
             u = rng.random()
             if u < 0.45:
                 r = rng.random() < 0.9
-                c = {'op': 'resolve', 'o': o, 'ct': rng.choice(cts), 'd': rng.choice(defaults), 'r': r}
+                c = {'op': 'resolve', 'o': o, 'ct': rng.choice(tcts), 'd': rng.choice(tdefs), 'r': r}
                 if not r:
                     c['ct'] = c['d'] = keys[0]
                 nontrivial = nontrivial or mutated
@@ -804,9 +809,9 @@ def replay(ctx, case):
     elif leg == 'A-handlers':
         evs = case['behaviour']
         run_ = HRun(evs[0]['maps'][0])
-        for si, st in enumerate(evs[1:case.get('step', len(evs))]):
+        for si, st in enumerate(evs[1:case.get('step', len(evs)) + 1]):
             c = spec_call(st['call'])
-            ev = run_.apply(c, case.get('event', {}).get('via') or 'wreq')
+            ev = run_.apply(c, case['routes'][si] if si < len(case.get('routes', [])) else 'wreq')
             print(si + 1, ev)
             o = ev['res'] if c['op'] == 'copy' else c['o']
             judge_handler_event(ctx, ev, st['call'], norm_map(st['maps'][o - 1]), st['ds'], dict(case, step=si + 1))
